@@ -2,10 +2,14 @@ package wire
 
 import (
 	"fmt"
+	"os"
+	"strconv"
 	"time"
 
 	"verifsim/harness"
 	"verifsim/ref/obfs4ref"
+	"verifsim/sim"
+	"verifsim/simnet"
 )
 
 func init() { register(&harness.Prop{ID: "C04", Run: runC04}) }
@@ -169,6 +173,89 @@ func runC04(c *harness.Ctx) {
 	}
 	inWindow := func(h, E int64) bool { return h >= E-1 && h <= E+1 }
 
+	// (about two minutes of wall clock: one run in 5000 of the thorough tier,
+	// never in the quick tier, unless VERIF_C04_FLOOD_1IN says otherwise)
+	floodIn := 0
+	if c.Tier == "thorough" {
+		floodIn = 5000
+	}
+	if v, err := strconv.Atoi(os.Getenv("VERIF_C04_FLOOD_1IN")); err == nil {
+		floodIn = v
+	}
+	if !wovenBuild && floodIn > 0 && t.Draw("junk-flood", floodIn) == floodIn-1 {
+		sim.RunWallExtra.Store(900)
+		// A long history: one genuine handshake is accepted, then more
+		// connections than the filter has room for present its X and mark with
+		// junk where the MAC belongs (anyone who has seen the handshake on the
+		// wire can do that) and hang up, then the genuine handshake is replayed.
+		// Only one handshake is being remembered, so the replay must be refused.
+		c.S.MaxSteps = 80000000
+		c.Feature("junk-flood-then-replay")
+		a := newBlob(int64(t.Draw("flood.hoff", 2)))
+		sub := submit(a)
+		c.S.Run(func() bool { return sub.done }, settle)
+		check(sub, nowHour(), true, "flood: the genuine handshake")
+		if c.S.Violated() || !sub.accepted {
+			return
+		}
+		a.accepted++
+		const floodN = 102400 + 64
+		const batch = 256
+		body := a.bytes[:len(a.bytes)-16]
+		done := 0
+		var batchLinks []*simnet.Link
+		for base := 0; base < floodN && !c.S.Violated(); base += batch {
+			for i := base; i < base+batch && i < floodN; i++ {
+				i := i
+				l := c.Net.NewLink(fmt.Sprintf("j%d", i), fmt.Sprintf("sj%d", i))
+				batchLinks = append(batchLinks, l)
+				l.AB.Policy = simnet.ChunkAll
+				c.S.Go(fmt.Sprintf("sj%d/accept", i), func() {
+					conn, err := sf.WrapConn(l.B)
+					if err == nil {
+						conn.Close()
+						c.Violate("C04/out-of-window-accepted", "flood: a handshake with junk in place of its MAC was accepted")
+					}
+					if len(l.B.Writes) != 0 {
+						c.Violate("C04/rejected-but-answered", "flood: the server wrote to a connection that presented junk in place of the MAC")
+					}
+					done++
+				})
+				c.S.Go(fmt.Sprintf("j%d/junk", i), func() {
+					msg := append(append([]byte(nil), body...), make([]byte, 16)...)
+					for k := 0; k < 8; k++ {
+						msg[len(msg)-16+k] = byte(uint64(i) >> (8 * uint(k)))
+						msg[len(msg)-8+k] = byte(0xA5 ^ k)
+					}
+					l.A.Write(msg)
+					l.A.Close()
+				})
+			}
+			want := base + batch
+			if want > floodN {
+				want = floodN
+			}
+			c.S.Run(func() bool { return done >= want }, 3*time.Minute)
+			for _, l := range batchLinks {
+				c.Net.Forget(l)
+			}
+			batchLinks = batchLinks[:0]
+			if done < want {
+				c.Violate("C04/submission-stuck", "flood: after %d junk connections the server has not let go of %d of them three minutes after the peer hung up", want, want-done)
+				return
+			}
+		}
+		if c.S.Violated() {
+			return
+		}
+		c.S.Count("fault.junk-connections", int64(floodN))
+		sub = submit(a)
+		c.S.Run(func() bool { return sub.done }, settle)
+		check(sub, nowHour(), false, fmt.Sprintf("flood: replay of the genuine handshake after %d connections that presented junk MACs", floodN))
+		c.Info["history"] = []string{"genuine accepted", fmt.Sprintf("%d junk", floodN), "replay"}
+		c.Reached, c.Nontrivial = true, true
+		return
+	}
 	maxOps := 10
 	if c.Tier == "thorough" {
 		maxOps = 18
